@@ -17,7 +17,8 @@
    exactly these components.  [es5] is the dialect of the standard; Model.v
    defines otto's.  (The behavioural departures otto once had -- holes filled in
    result arrays, reduce over holes, reduceRight's string index, splice(),
-   reverse's order -- were repaired in /repo and are not modelled any more.) *)
+   reverse's order, toString's forwarded arguments, length read after the
+   IsCallable test -- were repaired in /repo and are not modelled any more.) *)
 From Coq Require Import ZArith Bool List Lia.
 From Otto Require Import Common.Corr Common.Double.
 Import ListNotations.
@@ -444,9 +445,7 @@ Record dialect := mkDia {
   dia_rel : val -> Z -> option Z;            (* relative start/end -> index in [0,len] *)
   dia_cnt : val -> Z -> option Z;            (* deleteCount -> [0,bound] *)
   dia_indexof : val -> Z -> option (option Z);
-  dia_lastindexof : val -> Z -> option (option Z);
-  dia_tostring_args : bool;    (* Array.prototype.toString forwards its arguments to join *)
-  dia_callable_first : bool    (* every/some/forEach/map/filter/reduce/reduceRight test IsCallable before reading length *)
+  dia_lastindexof : val -> Z -> option (option Z)
 }.
 
 Definition es5 : dialect :=
@@ -454,8 +453,7 @@ Definition es5 : dialect :=
         (fun v len => option_map (fun r => clamp_rel r len) (to_integer v))
         (fun v b => option_map (fun r => clamp_cnt r b) (to_integer v))
         (fun v len => option_map (fun r => clamp_indexof r len) (to_integer v))
-        (fun v len => option_map (fun r => clamp_lastindexof r len) (to_integer v))
-        false false.
+        (fun v len => option_map (fun r => clamp_lastindexof r len) (to_integer v)).
 
 Section Methods.
 Variable D : dialect.
@@ -481,8 +479,7 @@ Definition m_len : M Z :=
     (v <- m_get KLen ;; opt_m (to_uint32 v)) s1.
 (* steps 2-4 of 15.4.4.16-22: len first, then IsCallable *)
 Definition m_len_checked (c : bool) : M Z :=
-  if dia_callable_first D then (if c then m_len else throw 6)
-  else len <- m_len ;; if c then ret len else throw 6.
+  len <- m_len ;; if c then ret len else throw 6.
 
 (* one invocation of the callback: log (this-code :: arguments), then do what the script says *)
 Definition m_call (entry : list val) : M val :=
@@ -863,7 +860,7 @@ Definition m_concat (args : list marg) : M rv :=
    (here: every non-array) gets Object.prototype.toString *)
 Definition m_tostring (args : list marg) : M rv :=
   fun s =>
-    if o_arr (s_o s) then m_join (if dia_tostring_args D then args else []) s
+    if o_arr (s_o s) then m_join [] s
     else Ok (RVal (VStr [91; 111; 98; 106; 101; 99; 116; 32; 79; 98; 106; 101; 99; 116; 93])) s.
 
 (* 15.4.4.3 with the locale-independent cases of toLocaleString: strings, booleans, integers below 1000 *)
